@@ -78,6 +78,7 @@ theorem de_ser (fuel : Nat) (d : TDesc) (v : Val) (out rest : List UInt8) (hp : 
     have hf : pfAll fs = true := by simpa [TDesc.pf] using hp
     simp [de, deFields_serFields fuel fs vs out rest hf h]
   | greedy e => simp [TDesc.pf] at hp
+  | padstruct a b c fs => simp [TDesc.pf] at hp
   | rest => simp [TDesc.pf] at hp
   | opt t => simp [TDesc.pf] at hp
   | cond t => simp [TDesc.pf] at hp
@@ -146,6 +147,7 @@ theorem de_tail (fuel : Nat) (d : TDesc) (v : Val) (out : List UInt8) (hd : tail
   | lvlist n e => have := de_ser fuel (.lvlist n e) v out [] (by simpa [tailOk] using hd) h; simpa using this
   | struct fs => have := de_ser fuel (.struct fs) v out [] (by simpa [tailOk] using hd) h; simpa using this
   | greedy e => simp [tailOk, TDesc.pf] at hd
+  | padstruct a b c fs => simp [tailOk, TDesc.pf] at hd
   | cond t => simp [tailOk, TDesc.pf] at hd
   | invalid => simp [tailOk, TDesc.pf] at hd
 
